@@ -469,7 +469,10 @@ let run_vsock_shift_guard toks =
   if Array.length a < 17 then "BADCASE" else
   let cfg = config_of a in
   let ops = List.map parse_op (Array.to_list (Array.sub a 17 (Array.length a - 17))) in
-  if c09_guard_trace_cubic C_cubic.cbrt_oracle C_cubic.powf3_oracle cfg ops then "GUARD" else "NOGUARD"
+  if c09_guard_trace_cubic C_cubic.cbrt_oracle C_cubic.powf3_oracle cfg ops then "GUARD"
+  else (match c09_guard_first_bad_cubic C_cubic.cbrt_oracle C_cubic.powf3_oracle cfg ops with
+      | Some i -> "NOGUARD step=" ^ string_of_z i
+      | None -> "NOGUARD")
 
 (* vdrop <case as vsock> : the ops may contain one `X` = the connection future is dropped without having
    returned (cancellation; model: drop_vsock = Drop for VirtualSocket); after it only application ops follow
